@@ -707,7 +707,7 @@ func (p *CPU) execInst(bus *device.Bus, as abi.As, arg *abi.AsRawArgument) error
 		case loong64.AADDI_D:
 			panic("TODO")
 		case loong64.AADDI_W:
-			p.RegX[arg.Rd] = p.RegX[arg.Rs1] + LAUInt(arg.Imm)
+			p.RegX[arg.Rd] = LAUInt(int64(int32(p.RegX[arg.Rs1]) + arg.Imm))
 			return nil
 		case loong64.ALD_B:
 			panic("TODO")
